@@ -5,7 +5,10 @@
 //!   cwmt-harness exec --slice <name> <file.ops>
 //!       executes an ops file (same format, `case` separators) and prints the outputs to stdout
 mod kv;
+mod sexp;
 mod util;
+mod wasm;
+mod wasm_gen;
 
 use std::fs::File;
 use std::io::{BufRead, BufReader, BufWriter, Write};
@@ -15,6 +18,7 @@ pub fn exec_case(slice: &str, lines: &[String]) -> Vec<String> {
     let r = util::guarded(|| match slice {
         "overlay" => kv::exec_overlay(lines),
         "views" => kv::exec_views(lines),
+        s if s.starts_with("wasm") => wasm::exec_wasm(lines),
         _ => panic!("unknown slice {}", slice),
     });
     match r {
@@ -33,6 +37,7 @@ pub fn gen_case(slice: &str, rng: &mut Rng, thorough: bool) -> Vec<String> {
     match slice {
         "overlay" => kv::gen_overlay(rng, thorough),
         "views" => kv::gen_views(rng, thorough),
+        "wasm" => wasm_gen::gen_wasm(rng, thorough),
         _ => panic!("unknown slice {}", slice),
     }
 }
